@@ -29,6 +29,7 @@ import types
 from fractions import Fraction
 from pathlib import Path
 
+from extract import image_key as image_key_table
 from extract import module_state, pdf_variants, purity_inventory
 from harness import c19_gen, c19_pdf, docs
 from vlib import sx
@@ -103,6 +104,14 @@ def doc_tags(wire, zoom, variant, sel):
         tags.append('bookmarks')
     if len({(page[0], page[1]) for page in wire}) > 1:
         tags.append('mixed-sizes')
+    names = {anchor[0] for page in wire for anchor in page[4]}
+    if any(not name.isascii() for name in names):
+        tags.append('unicode-names')
+
+    def written(name):
+        return name.encode('ascii') if name.isascii() else b'\xfe\xff' + name.encode('utf-16-be')
+    if sorted(names) != sorted(names, key=written):
+        tags.append('byte-order-differs')       # code-point order and the order of the written keys part
     return tags
 
 
@@ -195,7 +204,7 @@ def section_copy(run, factory, rendered):
         'non-trivial = a proper non-empty selection')
     candidates = [item for item in rendered if 2 <= len(item[2]) <= 6]
     candidates.sort(key=lambda item: -len(item[2]))
-    for html, document, wire in candidates[:run.n(2, 12)]:
+    for html, document, wire in candidates[:run.n(2, 8)]:
         n = len(wire)
         zoom = run.rng.choice(c19_gen.ZOOMS)
         for size in range(n + 1):
@@ -375,12 +384,13 @@ class ImageWorld:
         return out
 
     # canonical printing ---------------------------------------------------------------------------------------
-    def key_table(self, resources, extra_urls):
+    def key_table(self, calls):
+        """md5 digest -> the symbolic `md5(<key>)` the model prints, for the image key of every request of a history
+        (the key format is the model's: an implementation that keys differently prints raw digests and disagrees)."""
         table = {}
-        for url in [u for u, _ in resources] + list(extra_urls):
-            for orientation in ORIENTATIONS:
-                key = f'{url} {orientation}'
-                table[hashlib.md5(key.encode()).hexdigest()] = f'md5({key})'
+        for call in calls:
+            key = image_key(call)
+            table[hashlib.md5(key.encode()).hexdigest()] = f'md5({key})'
         return table
 
     def canon_key(self, key, table):
@@ -429,17 +439,39 @@ class ImageWorld:
         return f'bytes=reenc:{self.blob_id[blob]}:{how}:{image.format}'
 
 
-def run_image_history(world, resources, options, calls, cache):
-    """The real get_image_from_uri over a call history -> the line `imgcache` prints."""
+def image_key(call):
+    """The cache key of `Model/ImageCache.keyStr` for a request (url, forced, orientation, options)."""
+    url, _, orientation, options = call
+    return f'{url} {orientation} {options["optimize_images"]} {options["jpeg_quality"]} {options["dpi"]}'
+
+
+def wire_image_options(options):
+    return [options['optimize_images'], 'none' if options['jpeg_quality'] is None else options['jpeg_quality'],
+            'none' if options['dpi'] is None else options['dpi']]
+
+
+def gen_image_options(rng):
+    return {'optimize_images': rng.random() < 0.3, 'jpeg_quality': rng.choice([None, None, 30, 0]),
+            'dpi': rng.choice([None, None, 96, 0])}
+
+
+def tuple_calls(calls):
+    """Calls as they come back from JSON (replay files): orientation tuples again."""
+    return [(u, f, tuple(o) if isinstance(o, list) else o, dict(opts)) for u, f, o, opts in calls]
+
+
+def run_image_history(world, resources, calls, cache):
+    """The real get_image_from_uri over a call history (every call with the image options of the render that makes
+    it) -> the line `imgcache` prints."""
     from weasyprint import DEFAULT_OPTIONS
     from weasyprint.images import get_image_from_uri
     log = []
     fetcher = world.fetcher(resources, log)
-    table = world.key_table(resources, {url for url, _, _ in calls})
-    opts = dict(DEFAULT_OPTIONS)
-    opts.update(options)
+    table = world.key_table(calls)
     values = []
-    for url, forced, orientation in calls:
+    for url, forced, orientation, options in calls:
+        opts = dict(DEFAULT_OPTIONS)
+        opts.update(options)
         try:
             image = get_image_from_uri(
                 cache, fetcher, opts, url, forced_mime_type=forced or None, orientation=orientation)
@@ -462,8 +494,12 @@ def image_branch_tags(world, resources, calls, values, entries):
     tags = set()
     table = dict(resources)
     seen = set()
-    for (url, forced, orientation), value in zip(calls, values):
-        key = (url, str(orientation))
+    if len({json.dumps(call[3], sort_keys=True) for call in calls}) > 1:
+        tags.add('mixed-options')
+    for (url, forced, orientation, options), value in zip(calls, values):
+        key = image_key((url, forced, orientation, options))
+        if key not in seen and any(other.startswith(f'{url} {orientation} ') for other in seen):
+            tags.add('same-request-other-options')
         descriptor = table.get(url, ('raises',))
         if key in seen and not value.startswith('err'):
             tags.add('hit')
@@ -496,14 +532,15 @@ EXPECTED_TAGS = {
     'image-cache': ['hit', 'miss-fetcher-raises', 'miss-keyerror', 'miss-decoded', 'svg-by-mime', 'svg-last-chance',
                     'raster', 'raster-after-failed-svg', 'source-file', 'source-cached', 'format-JPEG', 'format-PNG',
                     'undecodable', 'undecodable-svg-mime', 'exif-transposed', 'bytes-original', 'bytes-reencoded-same',
-                    'bytes-reencoded-rot', 'bytes-reencoded-exif', 'disk', 'dict'],
+                    'bytes-reencoded-rot', 'bytes-reencoded-exif', 'disk', 'dict', 'mixed-options',
+                    'same-request-other-options'],
     'pdf-zoom-docs': ['bleed', 'bleed-capped', 'internal-links', 'bookmarks', 'mixed-sizes', 'ua', 'plain', 'copy',
-                      'whole'],
+                      'whole', 'unicode-names', 'byte-order-differs'],
     'pdf-zoom-synthetic': ['adversarial', 'bleed-capped', 'copy', 'ua', 'error-ZeroDivisionError',
-                           'error-AssertionError', 'error-AttributeError'],
+                           'error-AssertionError', 'error-AttributeError', 'unicode-names', 'byte-order-differs'],
     'write-sinks': ['none', 'fileobj', 'path', 'variant', 'no-variant', 'real-generate', 'error-KeyError'],
     'disk-cache': ['disciplined', 'mixed-kinds'],
-    'write-state': ['stale-annotation', 'all-current', 'xobject', 'PNG', 'JPEG'],
+    'write-state': ['dropped-after-annotated', 'all-current', 'xobject', 'PNG', 'JPEG'],
     'bookmark-tree': ['ok', 'assert'],
     'render-state': ['renders1', 'renders2', 'renders3', 'renders4', 'font-faces', 'caller-cache', 'folder-cache',
                      'raw-sheet'],
@@ -519,32 +556,33 @@ def section_images(run, world):
         'image-cache',
         'real get_image_from_uri over histories of 1..14 calls sharing a dict or a DiskCache, recording memory fetcher '
         '(PNG, JPEG, JPEG+EXIF, GIF, MPO, SVG, broken SVG, garbage, empty, fetcher raising, dict without data, file: '
-        'redirections), 8 orientations, forced MIME types, optimize / jpeg_quality / dpi; compared: every returned '
+        'redirections), 8 orientations, forced MIME types, optimize / jpeg_quality / dpi fixed for the history or '
+        'changing from call to call (a cache shared by renders with different image options); compared: every returned '
         'value, every cache entry in order, every fetch; non-trivial = some key is requested twice')
     for index in range(run.n(700, 9000)):
         resources = world.gen_resources(run.rng)
         urls = [url for url, _ in resources] + ['http://t/unknown']
-        options = {'optimize_images': run.rng.random() < 0.3,
-                   'jpeg_quality': run.rng.choice([None, None, 30, 0]),
-                   'dpi': run.rng.choice([None, None, 96, 0])}
+        option_pool = [gen_image_options(run.rng) for _ in range(1 if index % 3 else run.rng.randrange(2, 4))]
         calls = []
         for _ in range(run.rng.randrange(1, 15)):
             if calls and run.rng.random() < 0.35:
-                url, _, orientation = run.rng.choice(calls)
+                url, _, orientation, _ = run.rng.choice(calls)
                 if run.rng.random() < 0.3:
                     orientation = run.rng.choice(ORIENTATIONS)
             else:
                 url, orientation = run.rng.choice(urls), run.rng.choice(ORIENTATIONS)
-            calls.append((url, run.rng.choice(FORCED), orientation))
+            calls.append((url, run.rng.choice(FORCED), orientation, run.rng.choice(option_pool)))
         use_disk = index % 5 == 4
         folder = tempfile.mkdtemp(prefix='c19cache') if use_disk else None
         cache = DiskCache(folder) if use_disk else {}
-        values, log, table = run_image_history(world, resources, options, calls, cache)
+        values, log, table = run_image_history(world, resources, calls, cache)
         candidates = set()
         url_of = {}
-        for url, _, orientation in calls:
-            key = f'{url} {orientation}'
+        for call in calls:
+            url, _, orientation, _ = call
+            key = image_key(call)
             candidates.add(url)
+            candidates.add(f'{url} {orientation}')
             candidates.add(key)
             url_of[key] = (url, orientation)
             for dpi in ('', '96'):
@@ -562,13 +600,11 @@ def section_images(run, world):
             entries.sort()
             del cache
         out = ';'.join(values) + ' | keys ' + ';'.join(entries) + ' | fetched ' + ';'.join(log)
-        wire_calls = [[url, forced or '-', list(o) if isinstance(o, tuple) else o] for url, forced, o in calls]
-        line = sx.line('imgcache', [options['optimize_images'],
-                                    'none' if options['jpeg_quality'] is None else options['jpeg_quality'],
-                                    'none' if options['dpi'] is None else options['dpi']],
-                       world.wire_resources(resources), wire_calls, 'sorted' if use_disk else 'insertion')
-        keys = [(url, str(o)) for url, _, o in calls]
-        sec.add(line, out, meta={'resources': resources, 'options': options, 'calls': calls, 'disk': use_disk},
+        wire_calls = [[url, forced or '-', list(o) if isinstance(o, tuple) else o, wire_image_options(options)]
+                      for url, forced, o, options in calls]
+        line = sx.line('imgcache', world.wire_resources(resources), wire_calls, 'sorted' if use_disk else 'insertion')
+        keys = [image_key(call) for call in calls]
+        sec.add(line, out, meta={'resources': resources, 'calls': calls, 'disk': use_disk},
                 nontrivial=len(set(keys)) < len(keys),
                 tags=['disk' if use_disk else 'dict'] + image_branch_tags(world, resources, calls, values, entries))
 
@@ -721,7 +757,8 @@ def section_write_state(run, factory, world):
         'what a write leaves behind: (a) sequences of 2..5 real write_pdf calls over selections of one set of '
         'synthetic pages: which link boxes hold an annotation afterwards and of which write; (b) sequences of real '
         'RasterImage.get_x_object calls (ratio 1 and thumbnails) on one image: declared size, stored data size, how '
-        'often image_data was replaced; non-trivial = a later write sees state of an earlier one')
+        'often image_data was replaced; non-trivial = a later write contains a box that an earlier write annotated '
+        'and that it does not annotate itself (its link is dropped), or two thumbnail calls')
     for _ in range(run.n(60, 1500)):
         abstract = c19_gen.gen_synthetic_pages(run.rng, False, n_pages=run.rng.randrange(1, 5))
         n = len(abstract)
@@ -732,8 +769,18 @@ def section_write_state(run, factory, world):
         out, wire = run_link_writes(factory, abstract, selections)
         stale = any(tag.split(':')[1] != str(i + 1) for i, part in enumerate(out.split(' | '))
                     for tag in part.split(',') if ':' in tag)
+        # the situation the reset at the head of generate_pdf is for: a box annotated by an earlier write is part of a
+        # later write that does not annotate it (its link is dropped by resolve_links)
+        annotated, reset_needed = set(), False
+        for part, (_, links) in zip(out.split(' | '), wire):
+            tagged = {tag.split(':')[0] for tag in part.split(',') if ':' in tag}
+            if any(str(link[0]) in annotated and str(link[0]) not in tagged for link in links):
+                reset_needed = True
+            annotated |= tagged
         sec.add(sx.line('writes', *wire), out, meta={'abstract': json_abstract(abstract), 'selections': selections},
-                nontrivial=stale, tags=['links', 'stale-annotation' if stale else 'all-current'])
+                nontrivial=reset_needed,
+                tags=['links', 'stale-annotation' if stale else 'all-current'] +
+                (['dropped-after-annotated'] if reset_needed else []))
     sizes = [None, None, (32, 16), (16, 8), (8, 4), (128, 64)]     # (64, 32) would be ratio 1, i.e. None
     for _ in range(run.n(40, 600)):
         fmt = run.rng.choice(['PNG', 'JPEG'])
@@ -1251,7 +1298,7 @@ def section_render_state(run):
 
 # ---------------------------------------------------------------------------------------------- history (validation)
 
-IMAGE_OPTION_SETS = [{}, {}, {'jpeg_quality': 40, 'optimize_images': True}, {'dpi': 60}]
+IMAGE_OPTION_SETS = [{}, {}, {'jpeg_quality': 40, 'optimize_images': True}, {'dpi': 60}, {'jpeg_quality': 5}]
 BASE_OPTION_SETS = [{}, {}, {'presentational_hints': True}, {'pdf_variant': 'pdf/a-3b'}, {'pdf_variant': 'pdf/ua-1'},
                     {'uncompressed_pdf': True}, {'full_fonts': True}, {'srgb': True, 'custom_metadata': True}]
 
@@ -1410,7 +1457,6 @@ def section_history(run):
         counter_style = CounterStyle() if run.rng.random() < 0.3 else None
         html_objects, sheet_objects = {}, {}
         steps = []
-        image_set = None
         for step in range(length):
             if steps and run.rng.random() < 0.4:
                 index = run.rng.choice(steps)
@@ -1418,15 +1464,10 @@ def section_history(run):
                 index = run.rng.randrange(len(jobs))
             job = jobs[index]
             step_cache = cache
-            if cache is not None:
-                # a cache is only shared between renders that use the same image options, and never with `dpi`
-                # (known findings image-cache-ignores-options / dpi-thumbnail-replaces-source)
-                if 'dpi' in job['options']:
-                    step_cache = None
-                elif image_set is None:
-                    image_set = job['image_set']
-                elif image_set != job['image_set']:
-                    step_cache = None
+            if cache is not None and 'dpi' in job['options']:
+                # the cache is shared by renders with different image options (the key holds them since bca20a5),
+                # but never by renders with `dpi` (known finding dpi-thumbnail-replaces-source)
+                step_cache = None
             step_env = env if env is not None else c19_history.fresh_env()
             key = (index, id(step_env))
             reuse_html = run.rng.random() < 0.6
@@ -1481,17 +1522,17 @@ def section_history(run):
         orders = list(itertools.permutations(triple)) if run.thorough else [tuple(triple), tuple(reversed(triple))]
         for order in orders:
             env, cache = c19_history.fresh_env(), {}
-            same_images = len({jobs[i]['image_set'] for i in order}) == 1
             for position, index in enumerate(order):
                 job = jobs[index]
                 try:
-                    result = c19_history.run_job(job, env=env, cache=cache if same_images else None)
+                    result = c19_history.run_job(job, env=env, cache=cache)
                 except Exception as exc:  # noqa: BLE001
                     result = {'error': f'{type(exc).__name__}: {exc}'}
                 nonce[0] += 1
+                mixed = len({jobs[i]['image_set'] for i in order}) > 1
                 sec.add(sx.line('echo', history_signature(reference[index]), nonce[0]), history_signature(result),
                         meta={'validation': 'history', 'job': job,
-                              'how': {'order': list(order), 'position': position, 'shared_cache': same_images}},
+                              'how': {'order': list(order), 'position': position, 'mixed_image_options': mixed}},
                         nontrivial=position > 0, tags=['permutation'])
 
 
@@ -1585,8 +1626,7 @@ def zoom_clause(document, zoom, exact=True):
                     return f'page {number}: page_rectangle depends on zoom: {item1} vs {itemz}'
             elif tag == 'bleed':
                 media1, trim1 = page1[0][1:], page1[1][1:]
-                capped = any(abs(t - m) * Fraction(1) > 10 or abs(t - m) * zoom > 10 for t, m in zip(trim1, media1))
-                if not capped and not all(_close(zoom * a, b, exact) for a, b in zip(item1[1:], itemz[1:])):
+                if zoom > 0 and not all(_close(zoom * a, b, exact) for a, b in zip(item1[1:], itemz[1:])):
                     return f'page {number}: BleedBox {itemz[1:]} at zoom {zoom} is not zoom x {item1[1:]}'
                 mediaz, trimz = pagez[0][1:], pagez[1][1:]
                 slack = 0 if exact else Fraction(1, 10 ** 6)
@@ -1653,23 +1693,65 @@ def copy_clause(document, sel, zoom=1):
     return None
 
 
-def cache_clause(world, resources, options, calls):
-    """C19 'warm or cold image cache': every value returned in the history equals the value a cold call returns."""
-    warm, _, _ = run_image_history(world, resources, options, calls, {})
+def names_clause(document, zoom=1):
+    """The `/Dests` name tree a reader resolves internal links with: its keys, as written, must be strictly increasing
+    in byte order (ISO 32000-1 7.9.6) - otherwise the binary search of a reader misses destinations and the internal
+    links that `copy_clause` requires to be 'never dangling' do not resolve (also C16)."""
+    try:
+        _, text = exact_tree(document, zoom)
+    except ReaderError:
+        return None
+    except Exception as exc:  # noqa: BLE001
+        return f'write_pdf raised {type(exc).__name__}: {exc}'
+    names = [entry[0] for entry in text[1][1:]]
+    keys = [name.encode('ascii') if name.isascii() else b'\xfe\xff' + name.encode('utf-16-be') for name in names]
+    for first, second, a, b in zip(keys, keys[1:], names, names[1:]):
+        if not first < second:
+            return (f'/Dests name tree not sorted by the bytes of its keys: {a!r} ({first.hex()}) is written before '
+                    f'{b!r} ({second.hex()}); written order {names}')
+    return None
+
+
+def _stored_bytes(world, resources, calls, cache, value):
+    """Canonical description of the bytes behind the `cached=<data key>` source of a returned raster image."""
+    if ':cached=' not in value:
+        return None
+    shown = value.split(':cached=', 1)[1]
+    table = world.key_table(calls)
+    for key, entry in cache.items():
+        if isinstance(entry, bytes) and world.canon_key(key, table) == shown:
+            url, _, orientation, _ = calls[-1]
+            # Pillow encodes deterministically: the same source and parameters give the same bytes
+            return (world.show_entry(key, entry, table, resources, (url, orientation)) + '#' +
+                    hashlib.md5(entry).hexdigest()[:12])
+    return 'missing'
+
+
+def cache_clause(world, resources, calls):
+    """C19 'warm or cold image cache': every value returned in the history equals the value a cold call returns, and
+    the bytes the cache holds for it are the bytes a cold call stores (a cache shared by renders with different
+    image options must not serve one render the image data of another)."""
+    cache = {}
     for i, call in enumerate(calls):
-        cold, _, _ = run_image_history(world, resources, options, [call], {})
-        if cold[0] != warm[i]:
-            return (f'call {i} {call} returns {warm[i]} after the history {calls[:i]} but {cold[0]} on a cold cache '
-                    f'(options {options})')
+        warm, _, _ = run_image_history(world, resources, [call], cache)
+        cold_cache = {}
+        cold, _, _ = run_image_history(world, resources, [call], cold_cache)
+        if cold[0] != warm[0]:
+            return (f'call {i} {call} returns {warm[0]} after the history {calls[:i]} but {cold[0]} on a cold cache')
+        warm_bytes = _stored_bytes(world, resources, [call], cache, warm[0])
+        cold_bytes = _stored_bytes(world, resources, [call], cold_cache, cold[0])
+        if warm_bytes != cold_bytes:
+            return (f'call {i} {call} embeds {warm_bytes} after the history {calls[:i]} but {cold_bytes} on a cold '
+                    'cache')
     return None
 
 
 # ---------------------------------------------------------------------------------------------- findings
 
 def finding_stale_link_annotation():
-    """pdf/ua-1 of a copy whose page links to an anchor on an unselected page depends on whether the whole document
-    was written before: add_links leaves the box's `link_annotation` of the earlier PDF in place for the dropped link,
-    and draw / pdfua tag it (a reference into another PDF)."""
+    """(repaired, 974ea74: regression case)  pdf/ua-1 of a copy whose page links to an anchor on an unselected page
+    depended on whether the whole document was written before: add_links left the box's `link_annotation` of the
+    earlier PDF in place for the dropped link, and draw / pdfua tagged it (a reference into another PDF)."""
     from harness import c19_history
     os.environ['SOURCE_DATE_EPOCH'] = c19_history.EPOCH
     html = ('<style>@page{size:60px 40px;margin:0}body{font-family:weasyprint;font-size:10px;margin:0}</style>'
@@ -1702,7 +1784,8 @@ def finding_dpi_rewrite():
 
 
 def finding_cache_options():
-    """A cache shared by two renders with different image options: the second embeds the first's image."""
+    """(repaired, bca20a5: regression case)  A cache shared by two renders with different image options: the second
+    embedded the first's image."""
     from harness import c19_history
     os.environ['SOURCE_DATE_EPOCH'] = c19_history.EPOCH
     cache = {}
@@ -1747,20 +1830,56 @@ def finding_svg_rewrites_tree():
 
 
 def finding_bleedbox_cap():
-    """bleed 20px: BleedBox at zoom 2 is not 2 x BleedBox at zoom 1 (the 10pt cap is not scaled)."""
+    """(repaired, d924a7c: regression case)  bleed 20px: BleedBox at zoom 2 was not 2 x BleedBox at zoom 1 (the 10pt
+    cap was not scaled)."""
     document = docs.render('<style>@page{size:100px;margin:0;bleed:20px}</style>')
     (pages1, _, _), _ = exact_tree(document, 1)
     (pages2, _, _), _ = exact_tree(document, 2)
     return [2 * v for v in pages1[1][2][1:]] != list(pages2[1][2][1:])
 
 
+# Repaired findings (`fixed:` lines of known_findings.txt): the committed inputs stay as regression cases.  A fixed
+# entry suppresses nothing: if one of these fails again it is reported as a VIOLATION with its input.
+REGRESSIONS = {
+    'stale-link-annotation': (
+        finding_stale_link_annotation, '974ea74',
+        'pdf/ua-1 of document.copy(pages[:1]) differs when the whole document was written before (a link dropped by '
+        'resolve_links keeps the link_annotation of the earlier PDF)'),
+    'image-cache-ignores-options': (
+        finding_cache_options, 'bca20a5',
+        'a cache shared by a render with jpeg_quality=5 and a render with default options: the second embeds the '
+        'first\'s image data (warm != cold)'),
+    'bleedbox-cap-not-zoomed': (
+        finding_bleedbox_cap, 'd924a7c',
+        '@page{size:100px;bleed:20px}: BleedBox at zoom 2 is not 2 x BleedBox at zoom 1'),
+}
+
+
+def regression_outcome(ident):
+    try:
+        return 'regressed' if REGRESSIONS[ident][0]() else 'fixed'
+    except Exception as exc:  # noqa: BLE001
+        return f'err:{type(exc).__name__}'
+
+
+def section_regressions(run):
+    sec = run.section(
+        'regressions (validation)',
+        'the committed inputs of the repaired findings (fixed: lines) replayed on the implementation: each must behave '
+        'as repaired; the driver echoes `fixed`')
+    for ident in REGRESSIONS:
+        sec.add(sx.line('echo', 'fixed', ident), regression_outcome(ident),
+                meta={'validation': 'regression', 'id': ident}, nontrivial=True, tags=[ident])
+
+
 # ---------------------------------------------------------------------------------------------- the check
 
 class C19(PropCheck):
     id = 'C19'
-    extractors = (pdf_variants.generate, module_state.generate, purity_inventory.generate)
+    extractors = (pdf_variants.generate, module_state.generate, purity_inventory.generate,
+                  image_key_table.generate)
     modules = ('WpModel.Props.C19', 'WpModel.Props.C19Purity', 'WpModel.Props.C19State', 'WpModel.Witness.C19',
-               'WpModel.Props.C19Pm2')
+               'WpModel.Props.C19Pm2', 'WpModel.Props.C19Key', 'WpModel.Props.C19Names')
     trusted_base = (
         'modelled, not verified: generate_pdf / add_links / make_bookmark_tree coordinates, Document.copy, '
         'resolve_links, get_image_from_uri + RasterImage cache writes, write_pdf sinks, the allocation skeleton of '
@@ -1794,6 +1913,7 @@ class C19(PropCheck):
             timings[name] = round(time.time() - start, 2)
             return result
         module_before = module_state_snapshot()
+        timed('regressions', section_regressions, run)
         timed('history', section_history, run)
         rendered = timed('docs', section_docs, run)
         timed('copy', section_copy, run, factory, rendered)
@@ -1822,16 +1942,31 @@ class C19(PropCheck):
             return self._judge_document(meta)
         if section == 'image-cache':
             return cache_clause(ImageWorld(), [tuple(r) if not isinstance(r, tuple) else r for r in meta['resources']],
-                                meta['options'], [tuple(c) for c in meta['calls']])
+                                tuple_calls(meta['calls']))
         if section == 'write-sinks':
             return self._judge_sinks(d)
         if section == 'render-state':
             return self._judge_render_state(d)
         if section == 'resolve-links':
             return self._judge_resolve(d)
+        if section == 'write-state' and 'selections' in meta:
+            parts = d['impl'].split(' | ')
+            for number, part in enumerate(parts, start=1):
+                for tag in part.split(','):
+                    if ':' in tag and tag.split(':')[1] != str(number):
+                        return (f'write {number} of the selections {meta["selections"]} tags link box {tag.split(":")[0]} '
+                                f'with the annotation object of write {tag.split(":")[1]} (state left on the boxes by an '
+                                'earlier write_pdf reaches a later PDF)')
+            return None
         if section.startswith('module-state'):
             return (f'rendering changed the module-level object {meta["object"][1]} of weasyprint/{meta["object"][0]} '
                     '(process-lifetime state written after import)')
+        if section.startswith('regressions'):
+            ident = meta['id']
+            if regression_outcome(ident) == 'fixed':
+                return None
+            return (f'{REGRESSIONS[ident][2]} - the committed input of the repaired finding {ident} (fix: '
+                    f'{REGRESSIONS[ident][1]}) fails again')
         if section.startswith('history') or section.startswith('three-sinks'):
             kind = meta.get('validation')
             return (f'{kind}: the same input gave {d["impl"]} where the reference is {d["model"]} '
@@ -1850,9 +1985,13 @@ class C19(PropCheck):
             document = self._document_of(meta)
         except Exception as exc:  # noqa: BLE001
             return f'rendering raised {type(exc).__name__}: {exc}'
-        in_domain = zoom > 0 and all(level >= 1 for page in document.pages for level, *_ in page.bookmarks)
+        # bookmark levels >= 1 is what gather_anchors produces; the clauses speak about zoom > 0
+        levels_ok = all(level >= 1 for page in document.pages for level, *_ in page.bookmarks)
+        in_domain = zoom > 0 and levels_ok
         sel, variant = meta.get('sel'), meta.get('variant')
         if sel is not None:
+            if not levels_ok:
+                return None      # the asserts of make_page_bookmark_tree fire on the whole document as on its copies
             what = copy_clause(document, sel, zoom if zoom > 0 else 1)
             if what:
                 return what
@@ -1868,7 +2007,7 @@ class C19(PropCheck):
                 return f'write_pdf(pdf_variant={variant!r}) raised {type(exc).__name__}: {exc}'
         if not document.pages:
             return None
-        return zoom_clause(document, zoom)
+        return zoom_clause(document, zoom) or names_clause(document, zoom)
 
     def _judge_sinks(self, d):
         import ast
@@ -1946,6 +2085,9 @@ class C19(PropCheck):
             what = copy_clause(document, sel)
             if what:
                 add(what, {'html': html, 'sel': sel, 'kind': 'copy'}, 'copy:' + what[:40])
+            what = names_clause(document)
+            if what:
+                add(what, {'html': html, 'kind': 'names'}, 'names:' + what[:40])
             if len(found) >= 3:
                 return found
         # 2 warm = cold on the image cache
@@ -1953,15 +2095,14 @@ class C19(PropCheck):
         for _ in range(run.n(150, 1500)):
             resources = world.gen_resources(run.rng)
             urls = [url for url, _ in resources]
-            options = {'optimize_images': run.rng.random() < 0.3, 'jpeg_quality': run.rng.choice([None, 30]),
-                       'dpi': run.rng.choice([None, 96])}
-            calls = [(run.rng.choice(urls), run.rng.choice(FORCED), run.rng.choice(ORIENTATIONS))
+            pool = [{'optimize_images': run.rng.random() < 0.3, 'jpeg_quality': run.rng.choice([None, 30, 5]),
+                     'dpi': run.rng.choice([None, 96])} for _ in range(run.rng.randrange(1, 3))]
+            calls = [(run.rng.choice(urls), run.rng.choice(FORCED), run.rng.choice(ORIENTATIONS), run.rng.choice(pool))
                      for _ in range(run.rng.randrange(2, 8))]
             run.search_stats['evaluations'] += 1
-            what = cache_clause(world, resources, options, calls)
+            what = cache_clause(world, resources, calls)
             if what:
-                add(what, {'resources': resources, 'options': options, 'calls': calls, 'kind': 'cache'},
-                    'cache:' + what[:40])
+                add(what, {'resources': resources, 'calls': calls, 'kind': 'cache'}, 'cache:' + what[:40])
                 break
         # 3 three sinks
         document = docs.render(SINK_HTML)
@@ -1992,8 +2133,8 @@ class C19(PropCheck):
             for _ in range(run.n(20, 150)):
                 index = run.rng.randrange(len(jobs))
                 job = jobs[index]
-                if job['image_set'] != 0:
-                    continue
+                if 'dpi' in job['options']:
+                    continue          # known finding dpi-thumbnail-replaces-source
                 html = htmls.setdefault(index, c19_history.make_html(env, job['html']))
                 run.search_stats['evaluations'] += 1
                 try:
@@ -2015,9 +2156,7 @@ class C19(PropCheck):
 
     # -- replay -----------------------------------------------------------------------------------------------
     def finding_replays(self):
-        return {'stale-link-annotation': finding_stale_link_annotation,
-                'dpi-thumbnail-replaces-source': finding_dpi_rewrite,
-                'image-cache-ignores-options': finding_cache_options, 'bleedbox-cap-not-zoomed': finding_bleedbox_cap,
+        return {'dpi-thumbnail-replaces-source': finding_dpi_rewrite,
                 'font-config-accumulates-font-faces': finding_font_config,
                 'svg-rewrites-element-tree': finding_svg_rewrites_tree}
 
@@ -2031,9 +2170,10 @@ class C19(PropCheck):
             return zoom_clause(docs.render(inp['html']), Fraction(inp['zoom']), inp.get('exact', True))
         if kind == 'copy':
             return copy_clause(docs.render(inp['html']), inp['sel'])
+        if kind == 'names':
+            return names_clause(docs.render(inp['html']))
         if kind == 'cache':
-            return cache_clause(ImageWorld(), [(u, tuple(d)) for u, d in inp['resources']], inp['options'],
-                                [(u, f, tuple(o) if isinstance(o, list) else o) for u, f, o in inp['calls']])
+            return cache_clause(ImageWorld(), [(u, tuple(d)) for u, d in inp['resources']], tuple_calls(inp['calls']))
         if kind == 'history':
             job = inp['job']
             what = hashseed_clause(job)
@@ -2054,7 +2194,9 @@ class C19(PropCheck):
             meta = inp.get('meta') or {}
             if 'resources' in meta:
                 meta = dict(meta, resources=[(u, tuple(d)) for u, d in meta['resources']],
-                            calls=[(u, f, tuple(o) if isinstance(o, list) else o) for u, f, o in meta['calls']])
+                            calls=tuple_calls(meta['calls']))
+            if inp['section'].startswith('regressions'):
+                return self.judge({'section': inp['section'], 'meta': meta})
             if inp['section'].startswith('history') or inp['section'].startswith('three-sinks'):
                 job = meta.get('job')
                 if job is None:
@@ -2073,18 +2215,21 @@ MANIFEST = {
                  'the image cache, the write_pdf sinks and the allocation skeleton of HTML.render (variant table and '
                  'module-state sites regenerated from the source each run); exact executable correspondence with the '
                  'real functions; history / process / hash-seed validation harness',
-    'text': 'Proved for all inputs on the models: every PDF coordinate except the capped BleedBox offset is zoom x its '
-            'value at zoom 1 and the page rectangle does not depend on zoom; copy(pages) writes exactly the selected '
+    'text': 'Proved for all inputs on the models: every PDF coordinate (MediaBox, TrimBox, BleedBox, transforms, link '
+            'rectangles, destinations, outline points) is zoom x its value at zoom 1 for every zoom > 0 and the page '
+            'rectangle does not depend on zoom; copy(pages) writes exactly the selected '
             'pages (every variant) with no dangling internal link and the first-occurrence destinations; the three write_pdf targets '
             'get one pdf.write with identical arguments; a cache shared by any call history with a deterministic '
-            'fetcher and fixed options returns the cold value (keys are injective in (url, orientation)); successive '
+            'fetcher returns the cold value and holds the cold bytes, also when the image options change from call to '
+            'call (keys are injective in (url, orientation, options)); the Link tags of a write do not depend on '
+            'earlier writes; successive '
             'renders share no object that the caller did not pass. The models are tied to /repo by exact '
             'correspondence on generated documents, synthetic pages, call histories and recorded constructor traces.',
     'note': 'Partial by nature: determinism across processes / PYTHONHASHSEED, byte identity and non-mutation of caller '
             'objects are runtime behaviour; they are exercised by the history harness (validation), not proved. Known '
-            'findings: BleedBox 10pt cap is not scaled by zoom; pdf/ua-1 of a '
-            'copy depends on an earlier write (stale link_annotation); dpi: the '
-            'first write replaces the image source by its thumbnail; the image cache ignores the image options; a '
+            'findings: dpi: the first write replaces the image source by its thumbnail; a '
             'document\'s @font-face stays registered in the caller\'s FontConfiguration; drawing an inline <svg> with '
-            'patterns / masks / text white space rewrites the caller\'s HTML tree.',
+            'patterns / masks / text white space rewrites the caller\'s HTML tree. Repaired (regression cases kept): '
+            'BleedBox cap not scaled by zoom; stale link_annotation after an earlier write; image cache ignoring the '
+            'image options.',
 }
